@@ -263,12 +263,15 @@ def py_ir(e, env):
             return ('idx', py_ir(e.func.value, env), k.value if isinstance(k, ast.Constant) and isinstance(k.value, int) else py_ir(k, env))
         if isinstance(e.func, ast.Attribute) and e.func.attr in ('match', 'search') and len(e.args) == 1 and isinstance(e.func.value, ast.Name):
             return ('call', e.func.attr, [('sym', e.func.value.id), py_ir(e.args[0], env)])
-        if e.keywords or any(isinstance(a, ast.Starred) for a in e.args):
+        if any(isinstance(a, ast.Starred) for a in e.args) or any(k.arg is None for k in e.keywords):
             raise Unsupported('call %s' % ast.unparse(e.func))
+        allargs = list(e.args) + [k.value for k in e.keywords]        # keyword arguments in the order written (ports pass them by position)
         if isinstance(e.func, ast.Name):
-            return ('call', jsast.camel(e.func.id), [py_ir(a, env) for a in e.args])
+            return ('call', jsast.camel(e.func.id), [py_ir(a, env) for a in allargs])
         if isinstance(e.func, ast.Attribute) and isinstance(e.func.value, ast.Name) and e.func.value.id == 'self':
-            return ('call', 'self.' + jsast.camel(e.func.attr), [py_ir(a, env) for a in e.args])
+            return ('call', 'self.' + jsast.camel(e.func.attr), [py_ir(a, env) for a in allargs])
+        if isinstance(e.func, ast.Attribute) and isinstance(e.func.value, ast.Call):
+            return ('call', '.' + jsast.camel(e.func.attr), [py_ir(e.func.value, env)] + [py_ir(a, env) for a in allargs])
         raise Unsupported('call %s' % ast.unparse(e.func))
     if isinstance(e, ast.ListComp) and len(e.generators) == 1 and not e.generators[0].ifs and isinstance(e.generators[0].target, ast.Name):
         g = e.generators[0]
@@ -286,6 +289,9 @@ def py_cond(t, env):
             if isinstance(op, (ast.In, ast.NotIn)) and isinstance(r, (ast.Tuple, ast.List, ast.Set)):
                 c = ('in', py_ir(l, env), [py_ir(x, env) for x in r.elts])
                 parts.append(c if isinstance(op, ast.In) else ('not', c))
+            elif isinstance(op, (ast.Is, ast.IsNot, ast.Eq, ast.NotEq)) and isinstance(r, ast.Constant) and r.value is None:
+                c = ('truthy', py_ir(l, env))
+                parts.append(c if isinstance(op, (ast.IsNot, ast.NotEq)) else ('not', c))
             elif type(op) in PY_CMP:
                 parts.append(('cmp', PY_CMP[type(op)], py_ir(l, env), py_ir(r, env)))
             else:
@@ -325,7 +331,7 @@ def _merge(env, e1, e2, cond, names, nm):
 
 
 def _interesting(txt):
-    return any(ch in txt for ch in '+*(/')
+    return any(ch in txt for ch in '+*(/') or (txt[:1] in '\'"' and txt[-1:] in '\'"')     # arithmetic, or a string constant (a mode flag)
 
 
 def py_returns(fn, effects=None):
@@ -480,6 +486,8 @@ def js_ir(e, env):
             return ('call', 'map', [js_ir(body, inner), js_ir(c['object'], env)])
         if c['type'] == 'Identifier':
             return ('call', c['name'], [js_ir(a, env) for a in e['arguments']])
+        if c['type'] == 'MemberExpression' and not c['computed'] and c['object']['type'] == 'CallExpression':
+            return ('call', '.' + c['property']['name'], [js_ir(c['object'], env)] + [js_ir(a, env) for a in e['arguments']])
         if c['type'] == 'MemberExpression' and not c['computed'] and c['object']['type'] in ('ThisExpression', 'Identifier') and (
                 c['object']['type'] == 'ThisExpression' or env.get(c['object'].get('name')) == ('sym', 'self')):
             return ('call', 'self.' + c['property']['name'], [js_ir(a, env) for a in e['arguments']])
@@ -500,6 +508,10 @@ def js_cond(t, env):
             if pos or neg:
                 c = ('in', js_ir(l['arguments'][0], env), [js_ir(x, env) for x in l['callee']['object']['elements']])
                 return c if pos else ('not', c)
+        isnull = lambda x: (x['type'] == 'Literal' and x.get('value') is None and 'regex' not in x) or (x['type'] == 'Identifier' and x['name'] == 'undefined')
+        if isnull(r) or isnull(l):
+            c = ('truthy', js_ir(l if isnull(r) else r, env))
+            return c if JS_CMP[t['operator']] == '!=' else ('not', c)
         return ('cmp', JS_CMP[t['operator']], js_ir(l, env), js_ir(r, env))
     if t['type'] == 'LogicalExpression':
         return ('and' if t['operator'] == '&&' else 'or', [js_cond(t['left'], env), js_cond(t['right'], env)])
